@@ -132,6 +132,144 @@ Proof.
   apply Hs; lia.
 Qed.
 
+(* ------------------------------------------------------------------ sealed LessOrEqual = plain *)
+(* the binary search only looks at positions inside its range *)
+Lemma search_loop_ext : forall fuel f g i j,
+  (forall x, i <= x < j -> f x = g x) -> search_loop fuel f i j = search_loop fuel g i j.
+Proof.
+  induction fuel as [|n IH]; intros f g i j H; [reflexivity|].
+  simpl. destruct (Z.ltb_spec i j) as [Hlt|]; [|reflexivity].
+  assert (Hh : i <= (i + j) / 2 < j).
+  { split; [apply Z.div_le_lower_bound; lia|apply Z.div_lt_upper_bound; lia]. }
+  rewrite <- (H _ Hh). destruct (f ((i + j) / 2)); apply IH; intros x Hx; apply H; lia.
+Qed.
+
+Lemma bin_search_ext : forall from to f g,
+  (forall x, from <= x <= to -> f x = g x) -> bin_search_in_range from to f = bin_search_in_range from to g.
+Proof.
+  intros from to f g H. unfold bin_search_in_range, sort_search.
+  rewrite (search_loop_ext _ (fun i => f (from + i)) (fun i => g (from + i))); [reflexivity|].
+  intros x Hx. apply H. lia.
+Qed.
+
+Lemma id_le_stub : forall x, id_ok x -> id_le x stub_id = true.
+Proof.
+  intros [m r] [Hm Hr]. unfold id_le, stub_id, u64max, two64 in *. simpl in *.
+  destruct (Z.eqb_spec m (18446744073709551616 - 1)); [apply Z.leb_le|apply Z.ltb_lt]; lia.
+Qed.
+
+Lemma id_le_refl : forall x, id_le x x = true.
+Proof. intros [m r]. unfold id_le. simpl. rewrite Z.eqb_refl. apply Z.leb_refl. Qed.
+
+(* the whole table stub :: ids is descending *)
+Lemma tbl_sorted : forall ids a b, ids_ok ids -> desc_sorted ids ->
+  (a <= b)%nat -> (b < S (length ids))%nat ->
+  id_le (nth b (stub_id :: ids) stub_id) (nth a (stub_id :: ids) stub_id) = true.
+Proof.
+  intros ids a b Hok Hs Hab Hb. destruct a as [|a].
+  - destruct b as [|b]; [apply id_le_refl|]. simpl. apply id_le_stub. apply Hok. apply nth_In. lia.
+  - destruct b as [|b]; [lia|]. simpl. apply Hs; lia.
+Qed.
+
+Lemma last_nth' : forall (l : list id) d, last l d = nth (length l - 1) l d.
+Proof.
+  induction l as [|a l IH]; intros d; [reflexivity|].
+  destruct l as [|b l]; [reflexivity|]. rewrite IH. simpl length.
+  replace (S (S (length l)) - 1)%nat with (S (S (length l) - 1)) by lia. reflexivity.
+Qed.
+
+Definition ipb : nat := Z.to_nat ids_per_block.
+Lemma ipb_pos : (0 < ipb)%nat. Proof. unfold ipb, ids_per_block. lia. Qed.
+
+Lemma chunk_mins_S : forall k ids,
+  chunk_mins (S k) ids =
+  match ids with [] => [] | _ => last (firstn ipb ids) stub_id :: chunk_mins k (skipn ipb ids) end.
+Proof. reflexivity. Qed.
+
+(* MinBlockIDs[b] = the last ID of block b *)
+Lemma chunk_mins_nth : forall b fuel (ids : list id), (b < fuel)%nat -> (b * ipb < length ids)%nat ->
+  nth b (chunk_mins fuel ids) stub_id = nth (Nat.min ((b + 1) * ipb) (length ids) - 1) ids stub_id.
+Proof.
+  pose proof ipb_pos as HK.
+  induction b as [|b IH]; intros fuel ids Hf Hb.
+  - destruct fuel as [|k]; [lia|]. rewrite chunk_mins_S.
+    destruct ids as [|x ids']; [simpl in Hb; lia|]. set (ids := x :: ids') in *.
+    cbn [nth]. rewrite last_nth'. rewrite firstn_length.
+    rewrite nth_firstn' by lia. f_equal. lia.
+  - destruct fuel as [|k]; [lia|]. rewrite chunk_mins_S.
+    destruct ids as [|x ids']; [simpl in Hb; lia|]. set (ids := x :: ids') in *.
+    cbn [nth]. rewrite IH; [|lia|rewrite skipn_length; lia].
+    rewrite nth_skipn'. rewrite skipn_length. f_equal. lia.
+Qed.
+
+Lemma rid_shortcut : forall c x : id, id_ok c ->
+  (if fst c =? fst x then (if snd x =? u64max then true else snd c <=? snd x) else fst c <? fst x) = id_le c x.
+Proof.
+  intros [cm cr] [xm xr] [_ Hr]. unfold id_le. simpl in *. destruct (cm =? xm); [|reflexivity].
+  destruct (Z.eqb_spec xr u64max) as [->|]; [|reflexivity].
+  symmetry. apply Z.leb_le. unfold u64max. lia.
+Qed.
+
+Lemma tbl_id_ok : forall ids p, ids_ok ids -> id_ok (nth p (stub_id :: ids) stub_id).
+Proof.
+  intros ids p Hok. assert (Hs : id_ok stub_id) by (unfold id_ok, stub_id, u64max, two64; simpl; lia).
+  destruct (Nat.lt_ge_cases p (length (stub_id :: ids))) as [L|L].
+  - destruct p; [exact Hs|]. simpl. apply Hok. apply nth_In. simpl in L. lia.
+  - rewrite nth_overflow by exact L. exact Hs.
+Qed.
+
+(* thm:C04_lessorequal_shortcuts, re-proved over this model: for a descending table the sealed
+   comparison with its three shortcuts (block minimum, previous block minimum, RID = MaxUint64)
+   is the plain comparison, at every valid LID *)
+Theorem sealed_le_plain : forall ids lid x, ids_ok ids -> desc_sorted ids ->
+  0 <= lid < Z.of_nat (length (stub_id :: ids)) ->
+  sealed_le (stub_id :: ids) (min_block_ids (stub_id :: ids)) lid x = plain_le (stub_id :: ids) lid x.
+Proof.
+  intros ids lid x Hok Hs Hl. set (tbl := stub_id :: ids) in *.
+  assert (Hlen : length tbl = S (length ids)) by reflexivity.
+  pose proof ipb_pos as HK.
+  unfold sealed_le, plain_le. destruct (Z.leb_spec (Z.of_nat (length tbl)) lid); [lia|].
+  set (bi := lid / ids_per_block).
+  assert (Hbi : ids_per_block * bi <= lid < ids_per_block * (bi + 1) /\ 0 <= bi).
+  { unfold bi, ids_per_block. pose proof (Z.div_mod lid 4096 ltac:(lia)).
+    pose proof (Z.mod_pos_bound lid 4096 ltac:(lia)). pose proof (Z.div_pos lid 4096 ltac:(lia) ltac:(lia)). lia. }
+  assert (HKz : Z.of_nat ipb = ids_per_block) by (unfold ipb, ids_per_block; lia).
+  set (b := Z.to_nat bi).
+  assert (Hsort : forall p q, (p <= q)%nat -> (q < length tbl)%nat ->
+                  id_le (nth q tbl stub_id) (nth p tbl stub_id) = true).
+  { intros p q Hpq Hq. apply tbl_sorted; auto. rewrite <- Hlen. exact Hq. }
+  (* minimum of the LID's own block *)
+  assert (M1 : id_at (min_block_ids tbl) bi = nth (Nat.min ((b + 1) * ipb) (length tbl) - 1) tbl stub_id).
+  { unfold id_at, min_block_ids. fold b. apply chunk_mins_nth; unfold b; nia. }
+  rewrite M1. set (p1 := (Nat.min ((b + 1) * ipb) (length tbl) - 1)%nat).
+  set (c := id_at tbl lid). unfold id_at in c.
+  assert (L1 : id_le (nth p1 tbl stub_id) c = true).
+  { apply Hsort; unfold p1, b; nia. }
+  assert (Hc : id_ok c) by (apply tbl_id_ok; exact Hok).
+  destruct (id_le (nth p1 tbl stub_id) x) eqn:E1; cbn [negb].
+  - destruct (Z.ltb_spec 0 bi) as [B0|B0]; cbn [andb].
+    + assert (M0 : id_at (min_block_ids tbl) (bi - 1) = nth (Nat.min (b * ipb) (length tbl) - 1) tbl stub_id).
+      { unfold id_at, min_block_ids. replace (Z.to_nat (bi - 1)) with (b - 1)%nat by (unfold b; lia).
+        rewrite chunk_mins_nth; [|unfold b; nia|unfold b; nia].
+        replace (b - 1 + 1)%nat with b by (unfold b; lia). reflexivity. }
+      rewrite M0. set (p0 := (Nat.min (b * ipb) (length tbl) - 1)%nat).
+      destruct (id_le (nth p0 tbl stub_id) x) eqn:E0.
+      * symmetry. apply id_le_trans with (nth p0 tbl stub_id); [|exact E0].
+        apply Hsort; unfold p0, b; nia.
+      * apply rid_shortcut. exact Hc.
+    + apply rid_shortcut. exact Hc.
+  - symmetry. destruct (id_le c x) eqn:E; [|reflexivity].
+    rewrite (id_le_trans _ _ _ L1 E) in E1. discriminate.
+Qed.
+
+Lemma frac_le_plain : forall f lid x, ids_ok (f_ids f) -> desc_sorted (f_ids f) ->
+  0 <= lid < Z.of_nat (length (stub_id :: f_ids f)) ->
+  frac_le f lid x = plain_le (stub_id :: f_ids f) lid x.
+Proof.
+  intros f lid x Hok Hs Hl. unfold frac_le. destruct (f_sealed f); [|reflexivity].
+  apply sealed_le_plain; assumption.
+Qed.
+
 (* thm:C02_borders as far as C14 needs it: the LIDs between the borders are exactly the documents
    whose MID lies in [qf, qt] *)
 Theorem frac_scan_spec : forall f qf qt,
@@ -143,9 +281,16 @@ Proof.
   replace (Z.of_nat (length (stub_id :: ids))) with (n + 1) by (unfold n; simpl length; lia).
   destruct (Z.eqb_spec (n + 1) 0); [lia|].
   replace (n + 1 - 1) with n by lia.
+  assert (Hag : forall lid x, 1 <= lid <= n -> frac_le f lid x = plain_le (stub_id :: ids) lid x).
+  { intros lid x Hl. apply frac_le_plain; auto. fold ids. simpl length. unfold n in Hl. lia. }
+  rewrite (bin_search_ext 1 n _ (fun lid => plain_le (stub_id :: ids) lid (qt, u64max)))
+    by (intros x Hx; apply Hag; exact Hx).
   destruct (bin_search_spec 1 n (fun lid => plain_le (stub_id :: ids) lid (qt, u64max)))
     as [k1 [E1 [R1 [F1 T1]]]]; [lia|apply plain_le_mono; exact Hs|].
   rewrite E1.
+  match goal with |- context [bin_search_in_range k1 n (fun lid => frac_le f lid ?m)] =>
+    rewrite (bin_search_ext k1 n _ (fun lid => plain_le (stub_id :: ids) lid m))
+      by (intros x Hx; apply Hag; lia) end.
   match goal with |- context [bin_search_in_range k1 n ?g] =>
     destruct (bin_search_spec k1 n g) as [k2 [E2 [R2 [F2 T2]]]]; [lia| |] end.
   { intros a b Ha Hab Hb. apply (plain_le_mono ids _ Hs); lia. }
